@@ -59,7 +59,17 @@ const TRANSFORMS: [&str; 7] = [
     "replace_obsolete",
 ];
 
-pub fn c13(rng: &mut Rng, tier: &str, _idx: usize) -> Case {
+pub fn c13(rng: &mut Rng, tier: &str, idx: usize) -> Case {
+    if idx == 3 {
+        // more than 65 535 terms (implementation against the harness oracle only): lookups, links,
+        // distances, set operations, common ancestors, sub-ontology and comparison on terms in arena
+        // slots beyond 65 535
+        let mut c = Case::new("big-arena");
+        c.op(format!("bigarena 70000 {}", rng.next()));
+        c.stat("big_arena_terms", 70000);
+        c.nontrivial = true;
+        return c;
+    }
     let mut c = Case::new("hposet");
     let max_terms = *rng.pick(&[3usize, 4, 6, 10, 20, 35]);
     let (mut f, shape) = gen_facts(rng, &DagOpts { max_terms, with_roots: true, max_recs: 6 });
